@@ -132,6 +132,7 @@ pub fn run_history(cfg: &RunCfg, h: &History) -> (Outcome, RunInfo) {
     // C12: per table, the largest value the AUTO_INCREMENT column has ever been observed to hold,
     // and what happened since the last generated id
     let mut auto_hwm: std::collections::BTreeMap<String, i64> = Default::default();
+    let mut auto_leaked: std::collections::BTreeMap<String, std::collections::BTreeSet<i64>> = Default::default();
     let mut auto_events: std::collections::BTreeMap<String, Vec<&'static str>> = Default::default();
     let mut last_obs: Option<Obs> = if need_obs { Some(obs(&db, &model.tables, cfg.probes)) } else { None };
     let mut begin_obs: Option<Obs> = None;
@@ -427,10 +428,23 @@ pub fn run_history(cfg: &RunCfg, h: &History) -> (Outcome, RunInfo) {
                         }
                         auto_events.remove(&t.name);
                     }
-                    if let Some(m) = ids_now.iter().max() {
-                        let e = auto_hwm.entry(t.name.clone()).or_insert(0);
-                        if *m > *e {
-                            *e = *m;
+                    // ids that a *failed* statement left behind (rows before the violating row of a multi-row INSERT:
+                    // C06's listed finding) are not values the column "has held" as far as this property goes: the
+                    // statement reported no effect, and TurDB does not advance the counter for it either
+                    if matches!(exec, Exec::Ok { .. }) {
+                        let left = auto_leaked.get(&t.name);
+                        if let Some(m) = ids_now.iter().filter(|i| !left.map(|l| l.contains(*i)).unwrap_or(false)).max() {
+                            let e = auto_hwm.entry(t.name.clone()).or_insert(0);
+                            if *m > *e {
+                                *e = *m;
+                            }
+                        }
+                    } else {
+                        let hwm = auto_hwm.get(&t.name).copied().unwrap_or(0);
+                        let before: Vec<i64> = last_obs.as_ref().and_then(|o| o.get(&t.name)).and_then(|o| o.rows.as_ref().ok()).map(|rs| rs.iter().filter_map(|r| if let Some(Val::Int(i)) = r.get(ac) { Some(*i) } else { None }).collect()).unwrap_or_default();
+                        for i in ids_now.iter().filter(|i| **i > hwm && !before.contains(*i)) {
+                            auto_leaked.entry(t.name.clone()).or_default().insert(*i);
+                            out.add_class("ids_left_by_failed_statement_ignored");
                         }
                     }
                 }
